@@ -24,11 +24,12 @@ RULE = (
 )
 REAL = ["place_objects", "run_fdtd", "reversible_fdtd custom VJP (segmented forward, reverse loop, interface replay)", "checkpointed_fdtd + equinox checkpointed while-loop", "jax.grad"]
 STUB = ["tqdm disabled"]
-ASSUMPTIONS = ["float64; tolerance 1e-7 of the max interior gradient", "trusted reference: equinox's checkpointed while loop + JAX autodiff"]
+ASSUMPTIONS = ["float64; tolerance 1e-7 of the max interior gradient, plus a round-off floor of 1e-10 x the natural gradient scale (max|w| x detector output at the run's peak field amplitude x records)", "trusted reference: equinox's checkpointed while loop + JAX autodiff"]
 TECHNIQUE = "deterministic simulation: gradient-strategy / checkpoint-placement schedule, reversible VJP (log replay) vs exact autodiff on the same scene"
 LEVEL_TEXT = "Seeded exploration over scenes x reversible checkpoint placements; gradients compared cell by cell outside the absorbing layers."
 LEVEL_NOTE = "float64 CPU; <= 9^3 cells incl. PML, T <= 12; reference is the library's own exact-autodiff mode (named in DESIGN 4)"
 TOL = 1e-7
+ABS_FLOOR = 1e-10
 
 
 def generate(rng, tier, index):
@@ -80,6 +81,47 @@ def shrink(spec):
     return out
 
 
+def _natural_gradient_scale(scn, w):
+    """Size a gradient of <w, outputs> has when the fields at the detectors are as large as anywhere in the run.
+
+    Round-off in the reconstructed fields is relative to the *largest* field of the run (reconstruction starts from
+    the final state), so a reference gradient that is exactly zero (a detector that only records before anything
+    reaches it) or far below this scale is matched by the time-reversal gradient only to eps64 times this scale,
+    not relative to itself.  G = sum_d max|w_d| * max|out_d(random fields of amplitude Fmax)| * records_d; a
+    relative change of inv_eps of O(1) changes the loss by O(loss).
+    """
+    import jax.numpy as jnp
+    from fdsim import driver as dr, scene as sc
+
+    st = dr.Stepper(scn, record_detectors=False)
+    state = st.state0(scn.arrays.reset())
+    fmax = 0.0
+    for _ in range(scn.T):
+        state = st.fwd(state, 1)
+        fmax = max(fmax, float(jnp.max(jnp.abs(state[1].fields.E))), float(jnp.max(jnp.abs(state[1].fields.H))))
+    if not (fmax > 0) or not np.isfinite(fmax):
+        return 0.0
+    arr = scn.arrays
+    r = sc.np_rng(12345)
+    G = 0.0
+    for dn in sorted(arr.detector_states):
+        det = scn.objects[dn]
+        gs = det.grid_slice
+        on = np.nonzero(np.array(det._is_on_at_time_step_arr))[0]
+        if not len(on):
+            continue
+        shp = arr.fields.E[:, *gs].shape
+        E = jnp.asarray(r.uniform(-fmax, fmax, size=shp))
+        H = jnp.asarray(r.uniform(-fmax, fmax, size=shp))
+        mu = arr.inv_permeabilities
+        mu = mu[:, *gs] if hasattr(mu, "ndim") and mu.ndim > 0 else mu
+        zero = {k: jnp.zeros_like(v) for k, v in arr.detector_states[dn].items()}
+        out = det.update(time_step=jnp.asarray(int(on[0])), E=E, H=H, state=zero, inv_permittivity=arr.inv_permittivities[:, *gs], inv_permeability=mu)
+        for k2, v in out.items():
+            G += float(jnp.max(jnp.abs(w[(dn, k2)]))) * float(jnp.max(jnp.abs(v))) * len(on)
+    return G
+
+
 def execute(spec):
     import fdtdx
     import jax
@@ -123,6 +165,13 @@ def execute(spec):
     stats, viol, resid = {"sim_steps": 2 * T, "sim_time_fs": 0.0}, [], {}
     scale = [float(np.max(np.abs(g * mask))) for g in g_ref]
     nontrivial = bool(scale[0] > 0)
+    G = _natural_gradient_scale(scn, w)
+    floor = ABS_FLOOR * G  # round-off floor: six orders above eps64 * G, far below any gradient a reached detector produces
+    import os
+    if os.environ.get("VERIF_DEBUG"):
+        print("C04 scales: ref", scale, "natural G", G, "floor", floor, flush=True)
+    stats["probe_reference_gradient_zero"] = int(scale[0] == 0.0)
+    stats["probe_reference_below_floor"] = int(scale[0] * TOL < floor)
     for op in spec["ops"]:
         k = int(op["k"])
         cfg = scn.config.aset("gradient_config", scn.config.gradient_config.aset("num_checkpoints_reversible", k))
@@ -130,7 +179,7 @@ def execute(spec):
         stats["sim_steps"] += 2 * T
         stats["fault_reversible_k_" + ("0" if k == 0 else "max" if k == T - 1 else "mid")] = 1
         for name, a, b, s in zip(("inv_permittivity", "inv_permeability"), g_ref, g, scale):
-            d = dr.rel_diff(a * mask, b * mask, s if s > 0 else None)
+            d = dr.rel_diff(a * mask, b * mask, max(s, floor / TOL) if max(s, floor) > 0 else None)
             resid[name] = max(resid.get(name, 0.0), d if np.isfinite(d) else 1e300)
             if not (d <= TOL):
                 diff = np.abs(a * mask - b * mask)
